@@ -5,8 +5,8 @@ VARIABLES pairs
 
 RECURSIVE Strs(_)
 \* values are concatenations of up to MaxValLen tokens: plain bytes, every reserved character, a non-UTF-8
-\* byte, a form feed, a no-break space, and text that itself looks like an escape ("%25", "%41", a lone "%", "%2")
-Tokens == {<<97>>, <<37, 50, 53>>, <<37, 52, 49>>, <<37>>, <<37, 50>>, <<43>>, <<38>>, <<61>>, <<32>>, <<255>>, <<12>>, <<194, 160>>} \cup {<<c>> : c \in ValAlphabet}
+\* byte, a form feed, a no-break space, double quotes (alone, as an empty quoted string, around a letter), and text that itself looks like an escape ("%25", "%41", a lone "%", "%2")
+Tokens == {<<97>>, <<37, 50, 53>>, <<37, 52, 49>>, <<37>>, <<37, 50>>, <<43>>, <<38>>, <<61>>, <<32>>, <<255>>, <<12>>, <<194, 160>>, <<34>>, <<34, 34>>, <<34, 97, 34>>} \cup {<<c>> : c \in ValAlphabet}
 RECURSIVE StrsK(_)
 StrsK(n) == IF n = 0 THEN {<< >>} ELSE {q \o c : q \in StrsK(n - 1), c \in Tokens}
 Strs(n) == UNION {StrsK(k) : k \in 0..n}
